@@ -605,6 +605,12 @@ func (s *State) atLoopHead(l *Loop) bool {
 	declared := map[string][]Term{}
 	if ls != nil {
 		for _, m := range ls.Modifies {
+			if strings.TrimSpace(m) == "fresh" {
+				// `loop K modifies fresh`: an iteration writes only objects allocated since the function was entered
+				// (assumed at the head for every component the loop writes, re-checked at every back edge)
+				declared["\x00fresh"] = nil
+				continue
+			}
 			env := c.funcEnv(s, fr, false)
 			ts, _ := s.modTargets(env, strings.TrimSpace(m))
 			for _, t := range ts {
@@ -794,8 +800,13 @@ func (s *State) havocLoop(l *Loop, declared map[string][]Term) {
 				s.Heap[n] = nv
 				continue
 			}
-			if refs, ok := declared[n]; ok {
+			frameWM := wmEntry
+			_, freshOnly := declared["\x00fresh"]
+			if refs, ok := declared[n]; ok || freshOnly {
 				// user-declared loop frame: assumed here, re-checked at every back edge
+				if !ok {
+					frameWM = "WM!0"
+				}
 				fi = &frameInfo{precise: true, refs: refs}
 				if fr.LoopFrames[l.Head] == nil {
 					fr.LoopFrames[l.Head] = map[string]*loopFrame{}
@@ -806,7 +817,7 @@ func (s *State) havocLoop(l *Loop, declared map[string][]Term) {
 					}
 					fr.LoopFrames[l.Head] = cp
 				}
-				fr.LoopFrames[l.Head][n] = &loopFrame{start: nv, refs: refs, wm: wmEntry, sort: sortS}
+				fr.LoopFrames[l.Head][n] = &loopFrame{start: nv, refs: refs, wm: frameWM, sort: sortS}
 			}
 			if fi.precise {
 				q := c.fresh("r")
@@ -814,7 +825,7 @@ func (s *State) havocLoop(l *Loop, declared map[string][]Term) {
 				for _, r := range fi.refs {
 					ne = append(ne, fmt.Sprintf("(not (= %s %s))", q, r))
 				}
-				cond := fmt.Sprintf("(<= %s %s)", q, wmEntry)
+				cond := fmt.Sprintf("(<= %s %s)", q, frameWM)
 				if len(ne) > 0 {
 					cond = "(and " + cond + " " + strings.Join(ne, " ") + ")"
 				}
